@@ -187,6 +187,7 @@ Lemma fparse_step_inv fmt s n st pos c : fmt_wf fmt -> finv st ->
 Proof.
   intros W [D T]. unfold fparse_step. cbv zeta.
   set (cur := f_cur st) in *. set (ct := TextFmt.token cur) in *.
+  destruct (_ && _ && _ && _ && _); [split; assumption|].
   destruct (_ || _); [|split; assumption].
   destruct (_ && _); [split; assumption|].
   destruct (ct =? TextFmt.T_Timescale) eqn:ETS.
